@@ -53,12 +53,43 @@ func (u *Unit) callIsPure(c *ssa.CallCommon) bool {
 	if impureExtern[name] {
 		return false
 	}
+	if u.globalAddrArg(c) != "" {
+		// library code handed the address of one of this module's package-level variables (a cache, a sync.Map, a
+		// sync.Once ...) may write it and may answer from what an earlier call left there
+		return false
+	}
 	for _, a := range c.Args {
 		if _, ok := a.Type().Underlying().(*types.Signature); ok {
 			return false
 		}
 	}
 	return true
+}
+
+// globalAddrArg: the name of a package-level variable of the module under verification whose address (or the address of
+// one of its fields or elements) is among the arguments of the call, "" if there is none.
+func (u *Unit) globalAddrArg(c *ssa.CallCommon) string {
+	if c == nil {
+		return ""
+	}
+	for _, a := range c.Args {
+		v := a
+		for {
+			switch x := v.(type) {
+			case *ssa.FieldAddr:
+				v = x.X
+				continue
+			case *ssa.IndexAddr:
+				v = x.X
+				continue
+			}
+			break
+		}
+		if g, ok := v.(*ssa.Global); ok && g.Pkg != nil && g.Pkg.Pkg != nil && strings.HasPrefix(g.Pkg.Pkg.Path(), u.p.modulePath) {
+			return g.Name()
+		}
+	}
+	return ""
 }
 
 func (u *Unit) setResult(s *State, instr *ssa.Call, sig *types.Signature, res []Term) {
@@ -340,7 +371,11 @@ func (u *Unit) callResolved(s *State, c *ssa.CallCommon, callee *ssa.Function, n
 		u.havocGhostClosures(s, args)
 	} else if c == nil || !u.callIsPure(c) {
 		if u.restricted() {
-			panic(abortUnit{"write set: calls " + name + ", which may write any memory"})
+			if g := u.globalAddrArg(c); g != "" {
+				u.pureViolation(s, "hands the address of package-level variable "+g+" to "+name+", which may write it")
+			} else {
+				panic(abortUnit{"write set: calls " + name + ", which may write any memory"})
+			}
 		}
 		u.havocHeapsKeepFresh(s, args)
 		if callee != nil && !u.inModule(callee) {
